@@ -271,18 +271,21 @@ def build_and_run(prog, files, needed, driver_text):
 
 
 def all_needed(prog, root_key, written_names):
+    """Every written file (the output must compile and link *together*) + whatever they and the driver need from the originals"""
     files = list(prog.files_needed(root_key))
-    roots = [k for k, s in prog.subs.items() if s.file in written_names]
-    for k in roots:
-        for f in prog.files_needed(k):
-            if f not in files:
-                files.append(f)
+    for k, sub in prog.subs.items():
+        if sub.file in written_names:
+            for f in prog.files_needed(k):
+                if f not in files:
+                    files.append(f)
     for m, mod in prog.modules.items():
-        if mod.file in written_names and mod.file not in files:
-            files.append(mod.file)
+        if mod.file in written_names:
             for mm, _ in mod.uses:
                 if mm in prog.modules and prog.modules[mm].file not in files:
                     files.append(prog.modules[mm].file)
+    for f in sorted(written_names):       # also files all of whose units are second definitions of something
+        if f not in files:
+            files.append(f)
     return files
 
 
